@@ -219,7 +219,7 @@ func TestProp(t *testing.T) {
 		src, _ := m.Render(p, eng.RapidLayout{T: t, Calm: true})
 		c := Case{Src: src, Endless: endless}
 		// a loop that never yields cannot be given a budget from outside: the run would never come back
-		done := h.WatchFail(src, 5*time.Minute, &h.Failure{Property: "C14", Kind: "never-yields", Detail: "the run did not come back within 5 minutes: every budget of the harness is checked in Yield, so some loop runs without yielding", Src: src, Case: c})
+		done := h.WatchProgress(src, rec.YieldTicks.Load, 3*time.Minute, &h.Failure{Property: "C14", Kind: "never-yields", Detail: "the run did not yield for 3 minutes: every budget of the harness is checked in Yield, so some loop runs without yielding", Src: src, Case: c})
 		defer done()
 		var full *fullRun
 		if !endless {
@@ -315,11 +315,23 @@ func TestReplay(t *testing.T) {
 	// a case that never yields never comes back: decide it by the clock, as the search does
 	ch := make(chan *h.Failure, 1)
 	go func() { ch <- checkCase(c) }()
-	select {
-	case fl := <-ch:
-		ctx.FinishReplay(t, fl)
-	case <-time.After(3 * time.Minute):
-		ctx.FinishReplay(t, &h.Failure{Kind: "never-yields", Detail: "the run did not come back within 3 minutes: some loop runs without yielding", Src: c.Src, Case: c})
-		os.Exit(0) // the spinning goroutine cannot be stopped
+	last, since := rec.YieldTicks.Load(), time.Now()
+	for {
+		select {
+		case fl := <-ch:
+			ctx.FinishReplay(t, fl)
+			return
+		case <-time.After(2 * time.Second):
+		}
+		if now := rec.YieldTicks.Load(); now != last {
+			last, since = now, time.Now()
+		} else if time.Since(since) >= 2*time.Minute {
+			kind := "never-yields"
+			if c.Handler {
+				kind = "handler-never-yields"
+			}
+			ctx.FinishReplay(t, &h.Failure{Kind: kind, Detail: "the run did not yield for 2 minutes: some loop runs without yielding", Src: c.Src, Case: c})
+			os.Exit(0) // the spinning goroutine cannot be stopped
+		}
 	}
 }
